@@ -99,3 +99,44 @@ func HUsedModel() {
 }
 
 func init() { vRegister("HUsedModel", HUsedModel) }
+
+// HClosureNoDirective (C05): projects in which no directive is left to build — an empty
+// file, blanks, comments, MACRO definitions only, an INCLUDE of such a file (symbolic
+// choice, with one symbolic blank/comment byte): if a catalog comes out, it is a closed
+// catalog of JSight 0.3 like any other.
+func HClosureNoDirective() {
+	b := vByte("b")
+	vAssume(b == ' ' || b == '\n' || b == '\t' || b == '\r')
+	docs := []string{
+		"",
+		string([]byte{b}),
+		"# only a comment" + string([]byte{b}),
+		"###\nblock\n###" + string([]byte{b}),
+		"MACRO @m\n(\n  GET /a\n    200 any\n)\n",
+		"MACRO @m\n(\n  TAG @t\n)\nMACRO @n\n(\n  PASTE @m\n)\n",
+		"INCLUDE empty.jst\n",
+		// a version that only starts like the supported one (two symbolic bytes)
+		"JSIGHT 0.3" + vVersionSuffix() + "\nGET /a\n  200 any\n",
+	}
+	doc := docs[vInt("doc", 0, len(docs)-1)]
+	c, je := vBuildProject(doc, map[string]string{"empty.jst": "# nothing\n"})
+	if je != nil {
+		vAssert(strings.HasPrefix(je.File.Name(), vPath("/vfs/p/")), "c05-error-file-not-in-project")
+		vReach("rejected")
+		vObserve("rejected", je.Msg)
+		return
+	}
+	vCheckClosure(c)
+	vReach("closed")
+	vObserve("ok")
+}
+
+func vVersionSuffix() string {
+	s := vBytes("ver", 2)
+	for _, c := range s {
+		vAssume(c > ' ' && c < 0x7f && c != '#' && c != '"' && c != '/')
+	}
+	return string(s)
+}
+
+func init() { vRegister("HClosureNoDirective", HClosureNoDirective) }
